@@ -174,4 +174,42 @@ PROPS["C07"] = {
     "class_of": lambda c, r: "%s|%d" % (c["in"]["tag"], len(c["in"]["bid"]["txhash"])),
 }
 
+
+def _c05_agree(model, impl):
+    """offered bids, closure, leak and panic must agree; deliveries must be equal, except that when the
+    caller's deadline passed a goroutine may legitimately pick ctx.Done over the (never blocking)
+    channel send: then the implementation's deliveries must be a sub-multiset of the model's"""
+    if impl.get("panic") or not impl.get("closed") or impl.get("leaked"):
+        return False
+    if model.get("send_err") != impl.get("send_err"):
+        return False
+    if impl.get("send_err"):
+        return True
+    if canon(model["offered"]) != canon(impl["offered"]):
+        return False
+    md = [canon(x) for x in model["delivered"]]
+    im = [canon(x) for x in impl["delivered"]]
+    if model.get("_deadline"):
+        for x in im:
+            if x in md:
+                md.remove(x)
+            else:
+                return False
+        return True
+    return sorted(md) == sorted(im)
+
+
+def canon(x):
+    return json.dumps(x, sort_keys=True, separators=(",", ":"))
+
+
+PROPS["C05"] = {
+    "harness": {"kind": "cmd", "cmd": "sendbid"},
+    "agree": _c05_agree,
+    "level_text": "Theorems for every number of providers, every reply behaviour and every arrival order (any duplicate-free order of the per-provider goroutines; order independence proved as a permutation statement): every delivered commitment passed VerifyPreConfirmation, carries as provider address the recovered signer (C02 characterisation instantiated: digest = commitment hash over the sent bid, recover + low-S), and embeds exactly the bid this call sent; a commitment for a different valid bid (the provider's own or a replayed one) is never surfaced; at most one delivery per provider; the number of deliveries never exceeds the channel capacity, so no sender blocks and the closer runs once all goroutines returned. Tied to the real SendBid with the real preconfsigner over a scripted topology/streamer: 0..8 providers, 17 reply classes incl. different-valid-bid, replayed bid, foreign/invalid/short signatures, missing parts, error frames, garbage, silence, reset, open/write failures, forced arrival orders, deadline on or off; goroutine count sampled after completion.",
+    "level_note": "Trusted: Lean kernel; harness; liveness is proved under the contract that every blocking stream operation returns by the caller's deadline (stream.ReadMsg/WriteMsg select on ctx); real goroutine scheduling is sampled, not proved. When the deadline passes, a ready delivery may lose the select against ctx.Done (Go picks at random): deliveries are then compared as a sub-multiset.",
+    "nontrivial_rule": "distinct (tag, multiset of reply classes, deadline) cells",
+    "class_of": lambda c, r: "%s|%s|%s" % (c["in"]["tag"], sorted(p["class"] for p in (c["in"]["providers"] or [])), c["in"]["deadline"]),
+}
+
 NOT_CLAIMED = {}
